@@ -52,7 +52,7 @@ class Gen(object):
         choices += generic
         if ty == INT:
             choices += ['map_ii', 'map_ii', 'filter', 'filter', 'scan_int', 'scan_int', 'minmax', 'clip', 'fill_none',
-                        'map_ib', 'range_flat', 'pair', 'assert']
+                        'map_ib', 'range_flat', 'pair', 'assert', 'none_map']
             if o['math']:
                 choices += ['sum', 'mean', 'variance', 'stddev', 'fvariance', 'fstddev']
             if not o['dual_only']:
@@ -129,6 +129,8 @@ class Gen(object):
             return [['clip', lo, hi]], INT
         if c == 'fill_none':
             return [['map', ['none_if_mod', 3, 0]], ['fill_none', 42]], INT
+        if c == 'none_map':
+            return [['map', ['none_if_mod', rng.choice([2, 3]), rng.choice([0, 1])]]], ANY
         if c == 'range_flat':
             return [['map', ['mod', 4]], ['map', ['range_list']], ['flat_map']], INT
         if c == 'pair':
